@@ -47,103 +47,56 @@ fn eval_random_indexes(w: u16, max: usize, rep: &mut Report) {
     }
 }
 
-fn cfgs(quick: bool) -> Vec<(Cfg, Explore)> {
-    let cap = |s: u64| Duration::from_secs(s);
+fn cfg(name: &str, widths: &[u16], initial: (u64, u64), limit: usize, allowance: usize, horizon: usize, menu: Menu) -> Cfg {
+    Cfg {
+        name: name.into(),
+        widths: widths.to_vec(),
+        old: 0,
+        initial: vec![initial],
+        pre_sampled: vec![],
+        limit,
+        allowance,
+        horizon,
+        menu,
+        preset_highest: None,
+        preset_backlog: 0,
+    }
+}
+
+/// (configuration, deviation bound); simplest first.
+fn cfgs(quick: bool) -> Vec<(Cfg, usize)> {
+    let answers_reps = Menu { all_positions: false, ..Menu::answers_only() };
+    let env = |prune: Vec<u64>, all_positions: bool| Menu {
+        all_positions,
+        timeouts: true,
+        insert_head: true,
+        backfill: false,
+        reconnect: true,
+        prune,
+        report_highest: vec![],
+        clock: true,
+    };
     let mut v = vec![];
     // 1. one block of width 2: every answer order x every success/timeout assignment (4!·2^4)
-    v.push((
-        Cfg {
-            name: "w2-exhaustive".into(),
-            widths: vec![2],
-            old: 0,
-            initial: vec![(1, 1)],
-            pre_sampled: vec![],
-            limit: 1,
-            allowance: 0,
-            horizon: 8,
-            menu: Menu::answers_only(),
-            preset_highest: None,
-            preset_backlog: 0,
-        },
-        Explore { bound: 8, wall_cap: cap(120), max_execs: 1_000_000 },
-    ));
+    v.push((cfg("w2-exhaustive", &[2], (1, 1), 1, 0, 8, Menu::answers_only()), 8));
     // 2. two blocks of width 2 sampled concurrently, every outstanding request answerable
-    v.push((
-        Cfg {
-            name: "w2x2-concurrent".into(),
-            widths: vec![2, 2],
-            old: 0,
-            initial: vec![(1, 2)],
-            pre_sampled: vec![],
-            limit: 2,
-            allowance: 0,
-            horizon: 12,
-            menu: Menu::answers_only(),
-            preset_highest: None,
-            preset_backlog: 0,
-        },
-        Explore { bound: if quick { 2 } else { 3 }, wall_cap: cap(if quick { 20 } else { 240 }), max_execs: 2_000_000 },
-    ));
+    v.push((cfg("w2x2-concurrent", &[2, 2], (1, 2), 2, 0, 12, Menu::answers_only()), if quick { 2 } else { 4 }));
     // 3. one block of width 4 (16 samples = the whole square)
-    v.push((
-        Cfg {
-            name: "w4-single".into(),
-            widths: vec![4],
-            old: 0,
-            initial: vec![(1, 1)],
-            pre_sampled: vec![],
-            limit: 1,
-            allowance: 0,
-            horizon: 20,
-            menu: Menu { all_positions: !quick, ..Menu::answers_only() },
-            preset_highest: None,
-            preset_backlog: 0,
-        },
-        Explore { bound: if quick { 3 } else { 2 }, wall_cap: cap(if quick { 20 } else { 240 }), max_execs: 2_000_000 },
-    ));
+    v.push((cfg("w4-single", &[4], (1, 1), 1, 0, 20, answers_reps.clone()), 3));
     // 4. widths 8..64 (16 of many), store growing
     v.push((
-        Cfg {
-            name: "wide-8-16-32-64".into(),
-            widths: vec![8, 16, 32, 64],
-            old: 0,
-            initial: vec![(1, 1)],
-            pre_sampled: vec![],
-            limit: 1,
-            allowance: 1,
-            horizon: 90,
-            menu: Menu { all_positions: false, insert_head: true, ..Menu::answers_only() },
-            preset_highest: None,
-            preset_backlog: 0,
-        },
-        Explore { bound: if quick { 1 } else { 2 }, wall_cap: cap(if quick { 20 } else { 240 }), max_execs: 2_000_000 },
+        cfg("wide-8-16-32-64", &[8, 16, 32, 64], (1, 1), 1, 1, 90, Menu { insert_head: true, ..answers_reps.clone() }),
+        if quick { 1 } else { 2 },
     ));
     // 5. store growing and pruned, peers lost and regained, clock advancing
-    v.push((
-        Cfg {
-            name: "growing-pruned".into(),
-            widths: vec![2, 2, 2, 4],
-            old: 0,
-            initial: vec![(1, 2)],
-            pre_sampled: vec![],
-            limit: 2,
-            allowance: 1,
-            horizon: 72,
-            menu: Menu {
-                all_positions: false,
-                timeouts: true,
-                insert_head: true,
-                backfill: false,
-                reconnect: true,
-                prune: vec![1, 2],
-                report_highest: vec![],
-                clock: true,
-            },
-            preset_highest: None,
-            preset_backlog: 0,
-        },
-        Explore { bound: if quick { 2 } else { 3 }, wall_cap: cap(if quick { 30 } else { 400 }), max_execs: 4_000_000 },
-    ));
+    v.push((cfg("growing-pruned", &[2, 2, 2, 4], (1, 2), 2, 1, 72, env(vec![1, 2], false)), 2));
+    if !quick {
+        v.push((cfg("w4-single-all-positions", &[4], (1, 1), 1, 0, 20, Menu::answers_only()), 2));
+        v.push((cfg("w2x3-concurrent", &[2, 2, 2], (1, 3), 3, 0, 16, Menu::answers_only()), 2));
+        v.push((cfg("w4+w2-concurrent", &[4, 2], (1, 2), 2, 0, 24, answers_reps.clone()), 3));
+        v.push((cfg("growing-pruned-small", &[2, 2, 2], (1, 2), 2, 1, 40, env(vec![1, 2], false)), 3));
+        v.push((cfg("growing-pruned-all-positions", &[2, 2, 2, 4], (1, 2), 2, 1, 72, env(vec![1, 2], true)), 2));
+    }
     v
 }
 
@@ -165,10 +118,18 @@ fn main() {
                 eval_random_indexes(w, max, &mut rep);
             }
         }
-        for (cfg, ex) in cfgs(ctx.quick()) {
+        let budget = ctx.tier.pick(100.0, 840.0);
+        for (cfg, bound) in cfgs(ctx.quick()) {
             let t = std::time::Instant::now();
+            let left = (budget - ctx.elapsed_s()).max(1.0);
+            let ex = Explore { bound, wall_cap: Duration::from_secs_f64(left), max_execs: 20_000_000 };
             if let Err(e) = explore_cfg(&cfg, &ex, PROPS, &stats, &mut rep) {
-                machinery_error(&ctx.id, &e);
+                // a violation found on the way is the more useful verdict
+                if rep.violation_count == 0 {
+                    machinery_error(&ctx.id, &e);
+                }
+                eprintln!("machinery problem after a violation: {e}");
+                break;
             }
             eprintln!("cfg {} done in {:.1}s (evaluations so far {})", cfg.name, t.elapsed().as_secs_f64(), rep.evaluations);
         }
@@ -178,7 +139,7 @@ fn main() {
         &ctx,
         rep,
         Spec {
-            rule: "E1: random_indexes(w,16) for w in 1..=64 ∪ {65,127,128,255,256,512,1024,4096,65535}, 8 calls each. E3: real Daser over InMemoryStore+mocked P2p, executions = sequences of environment events (answer outstanding sample request k with a valid sample / RequestTimedOut, insert next head, WantToPrune/remove, disconnect/reconnect, advance clock 61 s / 5 h), choice 0 = answer oldest request successfully; cfg w2-exhaustive: all 4!·2^4 answer orders x success/timeout assignments of one width-2 block; w2x2-concurrent: two width-2 blocks in flight, <=2 (quick) / 3 (thorough) deviations over all outstanding positions; w4-single: 16 samples, <=3 deviations over oldest/newest position (quick) / <=2 over all positions (thorough); wide-8-16-32-64: <=1 / 2 deviations; growing-pruned: 4 blocks, limit 2+1, <=2 / 3 deviations. An execution is non-trivial when it deviates from the all-success default; distinct = distinct choice sequences (states = distinct property-level observation traces)",
+            rule: "E1: random_indexes(w,16) for w in 1..=64 ∪ {65,127,128,255,256,512,1024,4096,65535}, 8 calls each. E3: real Daser over InMemoryStore+mocked P2p, executions = sequences of environment events (answer outstanding sample request k with a valid sample / RequestTimedOut, insert next head, WantToPrune/remove, disconnect/reconnect, advance clock 61 s / 5 h), choice 0 = answer oldest request successfully; cfg w2-exhaustive: all 4!·2^4 answer orders x success/timeout assignments of one width-2 block; w2x2-concurrent: two width-2 blocks in flight, <=2 (quick) / 4 (thorough) deviations over all outstanding positions; w4-single: 16 samples, <=3 deviations over oldest/newest position; wide-8-16-32-64: <=1 / 2 deviations; growing-pruned: 4 blocks, limit 2+1, heads arriving, WantToPrune/remove, disconnect/reconnect, clock, <=2 deviations; thorough adds w4-single over all positions (<=2), three concurrent width-2 blocks (<=2), width 4 + width 2 concurrently (<=3), growing-pruned-small (3 blocks, <=3) and growing-pruned over all positions (<=2). An execution is non-trivial when it deviates from the all-success default; distinct = distinct choice sequences (states = distinct property-level observation traces)",
             assumptions: &[
                 "wall clock Time::now() is not seamed: header times are 1 h (inside) / 6 h (outside) old against a 4 h sampling window",
                 "the mocked P2p stands for bitswap: an answer is either a sample that decodes and verifies against the header's DAH (checked when the fixture builds it) or RequestTimedOut; undecodable data never reaches the Daser (ShwapMultihasher rejects it earlier)",
